@@ -29,7 +29,9 @@ open Ipld Ipld.Schema
       schema.quirks <type|repr> <ty…> VAL <dm-term…>    → names of the bindnode flags whose removal changes the
                                                            answer of the bindnode engine on this input (`-` if none)
       schema.wf <ty…>                                   → true | false
-      engine = ideal | bindnode | bindnode-<flag>   (bindnode with one flag cleared)
+      schema.quirksof <engine> <type|repr> <ty…> VAL <dm…>  → the same for any engine (C13: `gen`)
+      engine = ideal | bindnode | bindnode-<flag> | gen | gen-<flag>   (<engine>-<flag>: that engine with one flag cleared),
+               optionally followed by @entry | @keys | @node: how the builder is driven (Engine.viaKeys / viaNode)
 -/
 
 mutual
@@ -207,13 +209,44 @@ def parseTyVal (toks : List String) : Option (Ty × List String) :=
   | some (t, "VAL" :: rest) => some (t, rest)
   | _ => none
 
-def parseEngine (s : String) : Option Engine :=
+def parseEngineBase (s : String) : Option Engine :=
   if s == "ideal" then some Engine.ideal
   else if s == "bindnode" then some Engine.bindnode
   else if s.startsWith "bindnode-" then
     let flag := (s.drop 9).toString
     (Engine.bindnode.flags.find? (fun f => f.1 == flag)).map fun f => f.2.2
+  else if s == "gen" then some Engine.gen
+  else if s.startsWith "gen-" then
+    let flag := (s.drop 4).toString
+    (Engine.gen.flags.find? (fun f => f.1 == flag)).map fun f => f.2.2
   else none
+
+/-- `<engine>` or `<engine>@keys` / `<engine>@node`: the engine driven through the key assembler / by one
+    `AssignNode` of a prebuilt node (`Engine.viaKeys`, `Engine.viaNode`). -/
+def parseEngine (s : String) : Option Engine :=
+  match s.splitOn "@" with
+  | [b] => parseEngineBase b
+  | [b, "entry"] => parseEngineBase b
+  | [b, "keys"] => (parseEngineBase b).map fun e => { e with viaKeys := true }
+  | [b, "node"] => (parseEngineBase b).map fun e => { e with viaNode := true }
+  | _ => none
+
+/-- The flags of engine `e0` that are responsible for its answer on an input: (a) those whose removal alone
+    changes the answer, then (b) those whose removal changes it while walking from `e0` to `ideal` one flag
+    at a time (the algorithm of `schema.quirks`, for any engine). -/
+def quirksOfEngine (e0 : Engine) (lvl : Level) (ty : Ty) (d : DM) : String :=
+  let base := buildSealed e0 lvl ty d
+  let single := e0.flags.filterMap fun (name, isSet, cleared) =>
+    if isSet && buildSealed cleared lvl ty d != base then some name else none
+  let walk := e0.flags.foldl (init := (e0, base, ([] : List String)))
+    fun (cur, ans, acc) (name, _, _) =>
+      match (cur.flags.find? (fun f => f.1 == name)) with
+      | some (_, true, cleared) =>
+        let ans' := buildSealed cleared lvl ty d
+        (cleared, ans', if ans' != ans then acc ++ [name] else acc)
+      | _ => (cur, ans, acc)
+  let resp := single ++ walk.2.2.filter (fun n => !single.contains n)
+  if resp.isEmpty then "-" else ",".intercalate resp
 
 def showOutcome : Outcome TL → String
   | .ok v => "ok " ++ TL.toTerm v
@@ -237,14 +270,14 @@ def schemaHandler : List String → Option String
     match parseEngine eng, parseTyVal toks with
     | some e, some (ty, rest) =>
       match parseTermAll rest with
-      | some d => some (showOutcome (ofRepr e ty d))
+      | some d => some (showOutcome (buildSealed e .repr ty d))
       | none => some "bad-term"
     | _, _ => some "bad-args"
   | "schema.oftype" :: eng :: toks =>
     match parseEngine eng, parseTyVal toks with
     | some e, some (ty, rest) =>
       match parseTermAll rest with
-      | some d => some (showOutcome (ofType e ty d))
+      | some d => some (showOutcome (buildSealed e .type ty d))
       | none => some "bad-term"
     | _, _ => some "bad-args"
   | "schema.conforms" :: toks =>
@@ -290,6 +323,13 @@ def schemaHandler : List String → Option String
         some (if resp.isEmpty then "-" else ",".intercalate resp)
       | none => some "bad-term"
     | _, _ => some "bad-args"
+  | "schema.quirksof" :: eng :: lv :: toks =>
+    match parseEngine eng, parseLevel lv, parseTyVal toks with
+    | some e, some lvl, some (ty, rest) =>
+      match parseTermAll rest with
+      | some d => some (quirksOfEngine e lvl ty d)
+      | none => some "bad-term"
+    | _, _, _ => some "bad-args"
   | "schema.wf" :: toks =>
     match parseTyFuel (toks.length + 1) toks with
     | some (ty, []) => some (if ty.wf then "true" else "false")
